@@ -68,19 +68,24 @@ def _is_connected_cached(cls, x, y):
     if x == y:
         result = True
     else:
+        # Same order of attempts as the fast path of sympy's MinMaxBase._is_connected:
+        # for each operator, try (x, y) and then (y, x) with Max / Min exchanged, so that
+        # an answer found on the exchanged pair is reported in the orientation of (x, y).
         t, f, result = sympy.Max, sympy.Min, False
-        for _ in range(2):
-            for op in "><":
+        non_real = False
+        for op in "><":
+            for _ in range(2):
                 try:
                     v = (x >= y) if op == ">" else (x <= y)
                 except TypeError:
+                    non_real = True
                     break
                 if not v.is_Relational:
                     result = t if v else f
                     break
                 t, f = f, t
                 x, y = y, x
-            if result is not False:
+            if result is not False or non_real:
                 break
             x, y = y, x
     if len(_is_connected_cache) >= 200_000:
